@@ -1345,7 +1345,7 @@ def r_arg_mapping(ctx: Ctx, rule: str):
                 ok_long = True
     rep.ob(rule, "option names are the parameter names with dashes", ok_long, func=f, construct="long option name")
     # positional name
-    rep.ob(rule, "positional arguments are stored under the parameter's own name", f"[{pp}.name]" in src, func=f, construct="positional name")
+    rep.ob(rule, "positional arguments are stored under the parameter's own name", positional_dest_ok(ctx, f, pp), func=f, construct="positional name")
     adds = ctx.distinct_sites(ctx.nodes(f, lambda n: n.op == "call" and isinstance(n.ast.func, ast.Attribute) and n.ast.func.attr == "add_argument"))
     rep.floor(rule, "add_argument call", len(adds), 1)
     # bool parameters of public pool methods default to False
@@ -1358,6 +1358,130 @@ def r_arg_mapping(ctx: Ctx, rule: str):
                     ok = isinstance(default, ast.Constant) and default.value is False
                     rep.ob(rule, "a bool parameter of a public pool method defaults to False (store_true cannot express another default)", ok, func=m, construct=f"{c.name}.{name}({p}: bool = {ast.unparse(default) if default is not None else '<required>'})")
     rep.floor(rule, "bool parameters of public pool methods", n_bool, 2)
+
+
+def positional_dest_ok(ctx: Ctx, f: FuncInfo, pp: str) -> Optional[bool]:
+    """argparse files a positional under the very string it was registered with (no dash/underscore translation as for options),
+    and the session pops `param.name`: the one-element name list handed to add_argument must be `[<parameter>.name]`.
+    Read off the values that reach `add_argument(*names, ...)`: every list display that may be unpacked there."""
+    V = ctx.vals
+    adds = ctx.nodes(f, lambda n: n.op == "call" and isinstance(n.ast.func, ast.Attribute) and n.ast.func.attr == "add_argument")
+    singles: List[str] = []
+    seen = False
+    for a in adds:
+        for x in a.ast.args:
+            src_ = x.value if isinstance(x, ast.Starred) else None
+            if src_ is None:
+                if not (isinstance(x, ast.Constant) and isinstance(x.value, str) and x.value.startswith("-")) and not isinstance(x, ast.JoinedStr):
+                    singles.append(V.canon_at(a.func, a.env, x).replace(" ", ""))
+                    seen = True
+                continue
+            for fr, env, leaf in V.leaves_at(a, src_):
+                if isinstance(leaf, ast.Call) and isinstance(leaf.func, ast.Name) and leaf.func.id == "list" and len(leaf.args) == 1:
+                    continue  # built by a generator of option strings: options, not the positional form
+                if not isinstance(leaf, (ast.List, ast.Tuple)):
+                    return None
+                seen = True
+                if len(leaf.elts) == 1:
+                    singles.append(V.canon_call(fr, env, leaf.elts[0]).replace(" ", "").replace('"', "'"))
+    if not seen:
+        return None
+    names = [t for t in singles if not t.startswith(("'--", "f'--", "long"))]
+    # the single-name forms: the positional one (must be the parameter's own name) and possibly `[long]` (an option string)
+    own = [t for t in names if t == pp + ".name"]
+    others = [t for t in names if t != pp + ".name" and "--" not in t]
+    if not own:
+        return False
+    return not [t for t in others if (pp + ".name") in t]
+
+
+def r_executable(ctx: Ctx, rule: str) -> None:
+    """C16: a command that is listed can be executed - the namespace key the parser files a required argument under is the
+    parameter name the session looks up (a mismatch is a KeyError in the session for every command with such a parameter)."""
+    rep = ctx.rep
+    cp, sess = anchors(ctx)
+    rep.rule(rule, "EXECUTABLE: required parameters are registered under the parameter's own name (argparse keeps a positional's string as the "
+                   "namespace key), which is the key ControlSession pops when it calls the method")
+    f = cp.methods.get("add_function_arg")
+    if f is None:
+        raise AnalysisError("anchor: ControlParser.add_function_arg missing")
+    pp = f.param_names()[1]
+    rep.ob(rule, "positional arguments are stored under the parameter's own name", positional_dest_ok(ctx, f, pp), func=f, construct="positional name")
+    m = sess.methods.get("_exec_method_and_respond")
+    pops = [n for n in (ctx.nodes(m, lambda n: n.op == "call" and isinstance(n.ast.func, ast.Attribute) and n.ast.func.attr == "pop" and len(n.ast.args) == 1) if m else [])]
+    rep.floor(rule, "look-ups of parsed arguments by parameter name in the session", len(ctx.distinct_sites(pops)), 1)
+    for n in ctx.distinct_sites(pops):
+        key = ctx.vals.canon_at(n.func, n.env, n.ast.args[0]).replace(" ", "")
+        rep.ob(rule, "the session looks a parsed argument up under the parameter's name", key.endswith(".name"), node=n, detail=f"key {key}")
+
+
+ACTION_FIELDS = ("type", "choices", "nargs", "const", "dest", "option_strings")
+
+
+def r_conversion_sites(ctx: Ctx, rule: str) -> None:
+    """C17: what reaches the method is each word converted by the converter of its own parameter - and by nothing else.
+    argparse applies an action's `type` to every token the action consumes (for the sub-command action: to EVERY remaining word),
+    so a converter installed anywhere but on the argument built from the parameter changes the arguments of every command."""
+    rep = ctx.rep
+    cp, sess = anchors(ctx)
+    rep.rule(rule, "CONVERSION-SITES: in the control package a `type` converter is installed only by add_function_arg, as "
+                   "_get_type_from_annotation(<parameter>.annotation) of the parameter the argument is built from; no argparse action is "
+                   "re-configured after it was created (no store to .type/.choices/.nargs/.const/.dest/.option_strings)")
+    f = cp.methods.get("add_function_arg")
+    if f is None:
+        raise AnalysisError("anchor: ControlParser.add_function_arg missing")
+    pp = f.param_names()[1]
+    inside: Dict[int, Node] = {}
+    for n in ctx.an.cfg(f).nodes:
+        if n.ast is not None:
+            for x in ast.walk(n.ast):
+                inside.setdefault(id(x), n)
+
+    def type_sites(tree: ast.AST):
+        """(node, value expression or None, how) for every place a `type` setting is written"""
+        for x in ast.walk(tree):
+            if isinstance(x, ast.Call):
+                for k in x.keywords:
+                    if k.arg == "type":
+                        yield x, k.value, "keyword type="
+                if isinstance(x.func, ast.Attribute) and x.func.attr in ("setdefault", "__setitem__") and len(x.args) == 2 \
+                        and isinstance(x.args[0], ast.Constant) and x.args[0].value == "type":
+                    yield x, x.args[1], f".{x.func.attr}('type', ...)"
+                if isinstance(x.func, ast.Name) and x.func.id == "setattr" and len(x.args) == 3 and isinstance(x.args[1], ast.Constant) and x.args[1].value in ACTION_FIELDS:
+                    yield x, x.args[2], f"setattr(.., {x.args[1].value!r}, ..)"
+            elif isinstance(x, ast.Dict):
+                for k, v in zip(x.keys, x.values):
+                    if isinstance(k, ast.Constant) and k.value == "type":
+                        yield x, v, "dictionary key 'type'"
+            elif isinstance(x, (ast.Assign, ast.AugAssign, ast.AnnAssign)):
+                tgts = x.targets if isinstance(x, ast.Assign) else [x.target]
+                for t in tgts:
+                    for y in ast.walk(t):
+                        if isinstance(y, ast.Subscript) and isinstance(y.slice, ast.Constant) and y.slice.value == "type" and isinstance(y.ctx, ast.Store):
+                            yield x, getattr(x, "value", None), "[\'type\'] = ..."
+                        if isinstance(y, ast.Attribute) and y.attr in ACTION_FIELDS and isinstance(y.ctx, ast.Store):
+                            yield x, getattr(x, "value", None), f"store to .{y.attr}"
+
+    n_ok = 0
+    mods = {cp.module.name, sess.module.name}
+    for m in ctx.prog.modules.values():
+        if m.name not in mods:
+            continue
+        for x, val, how in type_sites(m.tree):
+            host = inside.get(id(x))
+            fn = next((g for g in ctx.prog.all_functions() if g.module is m and any(y is x for y in ast.walk(g.node))), None)
+            if how.startswith(("store to", "setattr")):
+                rep.ob(rule, "no argparse action is re-configured after it was created", False, func=fn, construct=x,
+                       detail=f"{how}: argparse applies an action's settings to every token that action consumes")
+                continue
+            if host is None:
+                rep.ob(rule, "a converter is installed only for the argument built from a parameter (add_function_arg)", False, func=fn, construct=x, detail=how)
+                continue
+            txt = ctx.vals.canon_call(host.func, host.env, val).replace(" ", "") if val is not None else ""
+            ok = txt == f"_get_type_from_annotation({pp}.annotation)"
+            n_ok += ok
+            rep.ob(rule, "the converter installed is the one derived from the parameter's own annotation", ok, node=host, construct=x, detail=f"{how}: {txt}")
+    rep.floor(rule, "converter installation sites in add_function_arg", n_ok, 1)
 
 
 def public_members(ctx: Ctx, c: ClassInfo):
